@@ -342,6 +342,14 @@ Fixpoint has_container (v : pv) : bool :=
   | Typing.PTuple l => (fix go (l : list pv) : bool := match l with [] => false | x :: r => has_container x || go r end) l
   | _ => false
   end.
+(* no MISSING_VALUE directly inside a list (pg.List drops such items) *)
+Fixpoint lists_present (v : pv) : bool :=
+  match v with
+  | Typing.PList l => (fix go (l : list pv) : bool := match l with [] => true | x :: r => negb (Typing.is_missing x) && lists_present x && go r end) l
+  | Typing.PTuple l => (fix go (l : list pv) : bool := match l with [] => true | x :: r => lists_present x && go r end) l
+  | Typing.PDict kvs => (fix go (l : list (Typing.str * pv)) : bool := match l with [] => true | (_, x) :: r => lists_present x && go r end) kvs
+  | _ => true
+  end.
 Fixpoint dict_keys_nodup (v : pv) : bool :=
   match v with
   | Typing.PDict kvs =>
@@ -362,11 +370,12 @@ Inductive tvalue : Type := TLit (l : lit) | TRef (p : pos) | TIns (v : tvalue) |
    Python value when it is one (the only values the typed write path of this model takes) *)
 Record rtv : Type := mkRtv { r_ins : bool; r_rv : rvalue; r_pv : option pv }.
 
+(* constructed values given as SymCore literals are untyped pg.Dict / pg.List (objects are constructed through their class) *)
 Fixpoint lit_no_obj (l : lit) : bool :=
   match l with
   | LitLeaf _ => true
-  | LitNode k _ _ its =>
-      match k with KObj _ => false | _ => true end &&
+  | LitNode k fl _ its =>
+      match k with KObj _ => false | _ => true end && N.eqb (f_spec fl) 0 &&
       (fix go (l : list (key * lit)) : bool := match l with [] => true | (_, c) :: r => lit_no_obj c && go r end) its
   end.
 
@@ -449,7 +458,17 @@ Definition t_err (e : Typing.err) : err := match e with Typing.TypeErr => EType 
 
 Section WithEnv.
 Variable q : quirks.
+(* open finding C03/member-not-fixpoint/apply/Union-...: the code stores what apply returns also when the value spec does
+   not map that result to itself (a Union can dispatch its own result to another candidate).  Flag off = the stored value
+   is checked to be a fixed point of the field's apply (anything else is answered EOther and shows up as a disagreement). *)
+Variable nf : bool.
 Variable ev : env.
+
+(* the value that is about to be stored: decodes back to itself as nodes, Python-dict keys distinct, no MISSING_VALUE item
+   in a list, and (unless [nf]) mapped to itself by the spec it was applied to *)
+Definition stored_ok (p : bool) (f : spec) (l : lit) (v : pv) : bool :=
+  Typing.pv_eqb (lit_pv l) v && dict_keys_nodup v && lists_present v &&
+  (nf || match Typing.apply p f v with Typing.Ok w => Typing.pv_eqb w v | Typing.Err _ => false end).
 
 (* does the node check what is written into it against a field *)
 Definition checks_members (n : node) : bool :=
@@ -490,7 +509,7 @@ Definition tformalize (sc : scope) (st : state) (r : nat) (ck : kind) (cid : N) 
   | Typing.Ok v' =>
       let v2 := prune (Some f) v' in
       let l := tlit ev (f_partial cfl) (Some f) v2 in
-      if Typing.pv_eqb (lit_pv l) v2 then inl (formalize q sc st r ck cid cfl tpath ins (RLit l))
+      if stored_ok (accepts_partial sc cfl) f l v2 then inl (formalize q sc st r ck cid cfl tpath ins (RLit l))
       else inr EOther
   end.
 
@@ -663,7 +682,7 @@ Definition tconstruct (st : state) (k : kind) (sp : spec) (fl : flags) (v : pv) 
       match tlit ev (f_partial fl) (Some sp) v' with
       | LitNode _ fl0 _ its =>
           let l := LitNode k (mkFlags (f_sealed fl) (f_aw fl) (f_partial fl) (f_spec fl0)) false its in
-          if Typing.pv_eqb (lit_pv (LitNode (match k with KObj _ => KDict | _ => k end) fl0 false its)) v' then
+          if stored_ok (f_partial fl) sp (LitNode (match k with KObj _ => KDict | _ => k end) fl0 false its) v' then
             let '(n, nx) := build false None [] l (next_id st) in inl (n, with_next st nx)
           else inr EOther
       | LitLeaf _ => inr EType
@@ -842,7 +861,7 @@ Definition exec_dict (sc : scope) (st : state) (ps : pos) (tid : N) (tk : kind) 
           let v' := prune (Some sp) v0 in
           match tlit ev (accepts_partial sc tfl) (Some sp) v' with
           | LitNode _ _ _ lits =>
-              if negb (Typing.pv_eqb (lit_pv (LitNode KDict default_flags false lits)) v') then (st, Err EOther) else
+              if negb (stored_ok (accepts_partial sc tfl) sp (LitNode KDict default_flags false lits) v') then (st, Err EOther) else
               let st1 := detach_all (update_at st ps (set_items [])) its in
               let '(tmp, nx) := build false None tpth (LitNode tk (mkFlags false true (accepts_partial sc tfl) 0%N) false lits) (next_id st1) in
               let its' := map (fun kc => (fst kc, set_par (Some tid) (snd kc))) (nitems tmp) in
@@ -1098,22 +1117,25 @@ Fixpoint e_tret (r : ret) : tr :=
 Definition e_toutcome (o : outcome) : tr :=
   match o with Ok r => L [I 0; e_tret r] | Err e => L [I 1; I (SymCore.e_err e)] end.
 
-Fixpoint run_steps2 (q : quirks) (ev : env) (st : state) (ops : list sop2) : list tr :=
+Fixpoint run_steps2 (q : quirks) (nf : bool) (ev : env) (st : state) (ops : list sop2) : list tr :=
   match ops with
   | [] => []
-  | o :: r => let '(st', out) := step2 q ev st o in L [e_toutcome out; e_tsnapshot ev st'] :: run_steps2 q ev st' r
+  | o :: r => let '(st', out) := step2 q nf ev st o in L [e_toutcome out; e_tsnapshot ev st'] :: run_steps2 q nf ev st' r
   end.
+(* quirk flags of a case: (copy_drops_missing stores_non_fixpoint) *)
+Definition d_nf (t : tr) : option bool :=
+  match t with L (_ :: b :: _) => dbool b | L _ => Some false | _ => None end.
 
 Definition run (c : tr) : tr :=
   match c with
   | L [qs; L specs; cls; L rts; L steps] =>
-      match SymCore.d_quirks qs, dall (Typing.d_spec 50) specs, dlist dN cls, dall d_root rts, dall d_step2 steps with
-      | Some q, Some tb, Some cr, Some rs, Some ops =>
+      match SymCore.d_quirks qs, d_nf qs, dall (Typing.d_spec 50) specs, dlist dN cls, dall d_root rts, dall d_step2 steps with
+      | Some q, Some nf, Some tb, Some cr, Some rs, Some ops =>
           let ev := mkEnv tb cr in
-          let '(st0, inits) := init_roots ev empty_state rs in
+          let '(st0, inits) := init_roots nf ev empty_state rs in
           L [L (map (fun e => match e with None => I 0 | Some x => I (SymCore.e_err x) end) inits);
-             e_tsnapshot ev st0; L (run_steps2 q ev st0 ops)]
-      | _, _, _, _, _ => ebad
+             e_tsnapshot ev st0; L (run_steps2 q nf ev st0 ops)]
+      | _, _, _, _, _, _ => ebad
       end
   | _ => ebad
   end.
